@@ -6,6 +6,7 @@ import (
 	"net"
 	"net/netip"
 	"runtime"
+	"sync/atomic"
 	"time"
 
 	"github.com/uhppoted/uhppote-core/types"
@@ -87,6 +88,8 @@ func runC09Disc(o *opts) (*summary, error) {
 	return w.close(), nil
 }
 
+var discBadlenTurn int32
+
 var discClasses = []string{"valid1", "valid2", "dup", "badlen", "badproto", "badcode", "badbcd"}
 
 // discoveryDatagram: one datagram of the given class (prev = the previous valid datagram, for "dup")
@@ -97,6 +100,15 @@ func discoveryDatagram(rng *rand.Rand, lt *layoutTables, cls string, prev []byte
 		serial = []byte{byte(rng.Intn(256)), byte(rng.Intn(256)), byte(rng.Intn(256)), byte(1 + rng.Intn(255))}
 	}
 	m := l.message(rng, 0x17, serial, "valid", nil)
+	if len(cls) > 6 && cls[:6] == "badlen" {
+		// "badlen<N>": a datagram of exactly N bytes
+		n := 0
+		fmt.Sscanf(cls[6:], "%d", &n)
+		if n <= 64 {
+			return m[:n]
+		}
+		return append(m, make([]byte, n-64)...)
+	}
 	switch cls {
 	case "valid1", "valid2":
 	case "dup":
@@ -104,7 +116,8 @@ func discoveryDatagram(rng *rand.Rand, lt *layoutTables, cls string, prev []byte
 			m = append([]byte{}, prev...)
 		}
 	case "badlen":
-		n := []int{0, 1, 63, 65, 128, 1024}[rng.Intn(6)]
+		// every wrong length in turn (process-wide counter): each of them - the empty datagram too - occurs in every run
+		n := []int{0, 1, 63, 65, 128, 1024, 2, 66}[int(atomic.AddInt32(&discBadlenTurn, 1))%8]
 		if n <= 64 {
 			m = m[:n]
 		} else {
@@ -240,12 +253,21 @@ func runC11(o *opts) (*summary, error) {
 		seq []string
 		rec M
 	}
-	results := make(chan M, nL)
+	results := make(chan M, nL+16)
 	sem := make(chan struct{}, 12)
+	// the first scenarios are fixed: a datagram of each wrong length BETWEEN two valid replies (neither may be hidden)
+	fixedSeqs := [][]string{}
+	for _, n := range []int{0, 1, 63, 65, 128, 1024, 2048, 4096} {
+		fixedSeqs = append(fixedSeqs, []string{"valid1", fmt.Sprintf("badlen%d", n), "valid2"})
+	}
+	nL += len(fixedSeqs)
 	for i := 0; i < nL; i++ {
 		seq := []string{}
 		for k := 0; k < rng.Intn(7); k++ {
 			seq = append(seq, discClasses[rng.Intn(len(discClasses))])
+		}
+		if i < len(fixedSeqs) {
+			seq = fixedSeqs[i]
 		}
 		seed := rng.Int63()
 		sem <- struct{}{}
